@@ -1460,6 +1460,12 @@ def _dejitter_outcomes(ttype, entries, refs, maxdiff):
 def _check_dejitter_result(prefix, ttype, entries, refs, maxdiff, result, exc):
     """result: tier or None; exc: exception or None"""
     goods, ill = _dejitter_outcomes(ttype, entries, refs, maxdiff)
+    if not refs:
+        # an empty reference is an error case of the property: a praatio error (or, harmlessly, an unchanged
+        # tier) is fine, any other exception is not
+        if exc is None or isinstance(exc, perrors.PraatioException):
+            return []
+        return [(prefix + ": raises a non-praatio exception", "praatio error", _exc(exc))]
     if exc is not None:
         if isinstance(exc, perrors.PraatioException):
             if ill:
@@ -1606,7 +1612,7 @@ def ev_align(case):
     try:
         out = praatio_scripts.alignBoundariesAcrossTiers(tg, "ref", md)
     except perrors.ArgumentError as e:
-        if guard or may_raise:
+        if guard or may_raise or not refs:  # an empty reference is an error case
             return []
         return [("alignBoundariesAcrossTiers: raises ArgumentError although the reference timestamps are at least "
                  "maxDifference apart", "aligned textgrid", _exc(e))]
